@@ -78,7 +78,7 @@ func init() {
 	register("C20", "", ruleErrStructure)
 	register("C15", "", ruleIntrospectionQuery, ruleDecodedFieldsUsed, ruleKindGuardsReader)
 	register("C16", "", ruleResolverSpec, ruleIntrospectionSources, r7(scope{"resolver", []string{"introspection.(*IntrospectionResolver).ResolveIntrospectionFields"}}), ruleMapRanges(scope{"resolver", []string{"introspection.(*IntrospectionResolver).ResolveIntrospectionFields"}}, 1))
-	register("C19", "", ruleVariableWrites, ruleEncodings("upload"), ruleUploadParts, ruleMapRanges(scUpload, 3))
+	register("C19", "", ruleVariableWrites, ruleEncodings("upload"), ruleUploadParts, ruleMapRanges(scUpload, 1))
 	register("C01", "", ruleEncodings("insertion"))
 	register("C14", "", ruleKeyReadSet)
 	register("C02", "", ruleVariableTraversals)
